@@ -5,7 +5,7 @@
    merge_parts by the correspondence run of harness/props/c15.py on every check.
    Output elements are tagged with the index of the part they come from: In (j, e') out. *)
 From PV Require Import Lib.Base Model.C05 Model.C05_Spec Model.C15 Model.C15_Spec
-     Proofs.C05_lib Proofs.C15 Proofs.C15_link Proofs.C15_ex.
+     Proofs.C05_lib Proofs.C15 Proofs.C15_link Proofs.C15_ex Proofs.C15_ext.
 From Coq Require Import Permutation.
 #[local] Open Scope Z_scope.
 
@@ -181,3 +181,155 @@ Theorem example_results :
         (1, 12, Some 9, Some 3); (1, 13, Some 10, Some 4); (2, 21, Some 17, Some 5); (2, 22, Some 17, Some 5)]).
 Proof. exact ex_results. Qed.
 Print Assumptions example_results.
+
+(* ---------------------------------------------------------------------------------------------
+   The argument: scores, part groups, lists and tuples (flattening: iter_parts, Score.__init__) *)
+
+(* the result depends on the flattened part list only ... *)
+Theorem container_irrelevant : forall m ts1 ts2,
+  flat_map flatten ts1 = flat_map flatten ts2 -> merge_parts m ts1 = merge_parts m ts2.
+Proof. exact container_irrelevant_lemma. Qed.
+Print Assumptions container_irrelevant.
+
+(* ... so a Score built from the parts and groups, a list / tuple of them, a PartGroup holding them and
+   a Score holding that group give the same merged part; a single Part is returned as it is *)
+Theorem dispatch_same_result : forall m ts,
+  merge_parts_arg m (AScore ts) = merge_parts_arg m (ASeq ts) /\
+  merge_parts_arg m (AOne (TGroup ts)) = merge_parts_arg m (ASeq ts) /\
+  merge_parts_arg m (AScore [TGroup ts]) = merge_parts_arg m (ASeq ts) /\
+  (forall p, merge_parts_arg m (AOne (TPart p)) = RSingle p).
+Proof. exact dispatch_same_result_lemma. Qed.
+Print Assumptions dispatch_same_result.
+
+(* O3 at the observation point "measures / signatures of the merged part": the elements of the
+   discarded classes in the merged part are, in order, exactly those of the first input, at the same
+   musical time (start and end multiplied by L / d0), everything else unchanged *)
+Theorem structural_exactly_first : forall m ts L out es0 d0 rest,
+  merge_parts m ts = RMerged L out -> flat_map flatten ts = (es0, d0) :: rest ->
+  map snd (filter (fun x : nat * elem => discard m (e_kind (snd x))) out) =
+  map (rescale_elem (L / d0)) (filter (fun e => discard m (e_kind e)) es0).
+Proof. exact structural_exactly_first_lemma. Qed.
+Print Assumptions structural_exactly_first.
+
+(* the state "voice / staff offsets": every element of input j is renumbered with the offsets that
+   are the running sums over the inputs before it (maximum_voices, maximum_staves, number of staves) *)
+Theorem offsets_are_running_sums : forall m ts L out j e',
+  merge_parts m ts = RMerged L out -> In (j, e') out ->
+  (exists es d e, nth_error (flat_map flatten ts) j = Some (es, d) /\ In e es /\
+     renumber m (offs_at (flat_map flatten ts) j) (uniq (voices_of es)) (uniq (staves_of es))
+              (rescale_elem (L / d) e) = Some e' /\ core e' = core e) /\
+  o_voice (offs_at (flat_map flatten ts) j) = zsum (map maxv (map fst (firstn j (flat_map flatten ts)))) /\
+  o_staff (offs_at (flat_map flatten ts) j) = zsum (map maxs (map fst (firstn j (flat_map flatten ts)))) /\
+  o_nstaves (offs_at (flat_map flatten ts) j) = zsum (map nstaves (map fst (firstn j (flat_map flatten ts)))).
+Proof. exact (fun m ts L out j e' H Hin => conj (offsets_running_sums_lemma m ts L out j e' H Hin) (offs_at_sums _ j)). Qed.
+Print Assumptions offsets_are_running_sums.
+
+(* the new numbers written out for the three modes *)
+Theorem renumbering_formulas : forall m ts L out j e',
+  merge_parts m ts = RMerged L out -> In (j, e') out ->
+  let before := map fst (firstn j (flat_map flatten ts)) in
+  exists es d e, nth_error (flat_map flatten ts) j = Some (es, d) /\ In e es /\ core e' = core e /\
+    match m with
+    | MVoice => (generic e -> exists v, e_voice e = Some v /\ e_voice e' = Some (v + zsum (map maxv before))) /\
+                e_staff e' = e_staff e
+    | MStaff => (staffed e -> e_staff e' = Some (staff1 e + zsum (map maxs before))) /\
+                e_voice e' = e_voice e
+    | MAuto => (staffed e -> e_staff e' = Some (zsum (map nstaves before) + 1 + rank (staff1 e) (uniq (staves_of es)))) /\
+               (generic e -> exists v, e_voice e = Some v /\
+                  e_voice e' = Some (4 * zsum (map nstaves before) + 1 + rank v (uniq (voices_of es))))
+    end.
+Proof. exact renumbering_formulas_lemma. Qed.
+Print Assumptions renumbering_formulas.
+
+(* exactly when the merge of two or more parts raises: "voice" / "auto" mode and a note or rest
+   without a voice (outside the quantifier of the property; "staff" mode never raises) *)
+Theorem merge_raises_iff : forall m ts, (2 <= List.length (flat_map flatten ts))%nat ->
+  (merge_parts m ts = RRaise <-> m <> MStaff /\ all_voiced (flat_map flatten ts) = false).
+Proof. exact merge_raises_iff_lemma. Qed.
+Print Assumptions merge_raises_iff.
+
+(* history: a merged part merged again with further parts -- the result counts in the lcm of ALL
+   original divisions and every element stands at the musical time it had in its ORIGINAL part *)
+Theorem merge_twice_time_preserved : forall m1 m2 ts1 L1 out1 ts2 L2 out2,
+  merge_parts m1 ts1 = RMerged L1 out1 ->
+  merge_parts m2 (TPart (map snd out1, L1) :: ts2) = RMerged L2 out2 ->
+  divs_pos (flat_map flatten ts1) -> divs_pos (flat_map flatten ts2) ->
+  L2 = lcm_list (divs_of (flat_map flatten ts1 ++ flat_map flatten ts2)) /\ 0 < L2 /\
+  (forall e'', In (0%nat, e'') out2 ->
+     exists j es d e, nth_error (flat_map flatten ts1) j = Some (es, d) /\ In e es /\
+                      core e'' = core e /\ (d | L2) /\ same_time L2 d e e'') /\
+  (forall j e'', In (S j, e'') out2 ->
+     exists es d e, nth_error (flat_map flatten ts2) j = Some (es, d) /\ In e es /\
+                    core e'' = core e /\ (d | L2) /\ same_time L2 d e e'').
+Proof. exact merge_twice_lemma. Qed.
+Print Assumptions merge_twice_time_preserved.
+
+(* O2 at the observation point "note array (with staff) of the merged part": every row stands for a
+   Note / GraceNote element of the merged part with that onset, pitch, voice and staff ... *)
+Theorem merged_array_rows_are_elements : forall m ts L out rows,
+  merge_parts m ts = RMerged L out -> merged_rows L out = Some rows ->
+  forall r, In r rows -> exists j e', In (j, e') out /\ row_of_elem r e'.
+Proof. exact (fun m ts L out rows _ MR => merged_array_rows_lemma L out rows MR). Qed.
+Print Assumptions merged_array_rows_are_elements.
+
+(* ... and two rows that share a voice ("voice" mode) / a staff ("staff" mode) come from the same
+   input *)
+Theorem merged_array_voice_mode_disjoint : forall ts L out rows, merge_parts MVoice ts = RMerged L out ->
+  parts_good voices_ok (flat_map flatten ts) -> merged_rows L out = Some rows ->
+  forall r1 r2, In r1 rows -> In r2 rows -> r_voice r1 = r_voice r2 ->
+  exists j e1 e2, In (j, e1) out /\ In (j, e2) out /\ row_of_elem r1 e1 /\ row_of_elem r2 e2.
+Proof. exact merged_array_voice_mode_lemma. Qed.
+Print Assumptions merged_array_voice_mode_disjoint.
+
+Theorem merged_array_staff_mode_disjoint : forall ts L out rows, merge_parts MStaff ts = RMerged L out ->
+  parts_good staves_ok (flat_map flatten ts) -> merged_rows L out = Some rows ->
+  forall r1 r2, In r1 rows -> In r2 rows -> r_staff r1 = r_staff r2 ->
+  exists j e1 e2, In (j, e1) out /\ In (j, e2) out /\ row_of_elem r1 e1 /\ row_of_elem r2 e2.
+Proof. exact merged_array_staff_mode_lemma. Qed.
+Print Assumptions merged_array_staff_mode_disjoint.
+
+Theorem merged_array_auto_mode_disjoint : forall ts L out rows, merge_parts MAuto ts = RMerged L out ->
+  merged_rows L out = Some rows ->
+  (forall r1 r2, In r1 rows -> In r2 rows -> r_staff r1 = r_staff r2 ->
+     exists j e1 e2, In (j, e1) out /\ In (j, e2) out /\ row_of_elem r1 e1 /\ row_of_elem r2 e2) /\
+  (parts_good four_per_staff (flat_map flatten ts) ->
+   forall r1 r2, In r1 rows -> In r2 rows -> r_voice r1 = r_voice r2 ->
+     exists j e1 e2, In (j, e1) out /\ In (j, e2) out /\ row_of_elem r1 e1 /\ row_of_elem r2 e2).
+Proof. exact merged_array_auto_mode_lemma. Qed.
+Print Assumptions merged_array_auto_mode_disjoint.
+
+(* the convenience loader: merge_parts in "voice" mode on the flat part list of the loaded score (so
+   every theorem above applies to it); a score with one part gives that part *)
+Theorem loader_is_voice_merge : forall parts,
+  load_as_part parts = merge_parts MVoice (map TPart parts) /\
+  flat_map flatten (map TPart parts) = parts /\
+  (forall p, parts = [p] -> load_as_part parts = RSingle p).
+Proof. exact load_as_part_lemma. Qed.
+Print Assumptions loader_is_voice_merge.
+
+(* non-vacuity of the extensions: percussion (unpitched notes in a voice and on a staff of their own
+   are counted; they are no rows of the note array), the shapes of the argument, a rest without voice
+   (raises in "voice" / "auto" only), a merged part merged again, the offsets, the loader *)
+Theorem extension_examples :
+  (exists out, merge_parts_arg MVoice (ASeq [TPart px_p0; TPart px_p1]) = RMerged 4 out /\
+     gen_view out = [(0, 2, 0, Some 1, Some 1); (0, 3, 0, Some 2, Some 2); (0, 4, 4, Some 2, Some 2);
+                     (1, 12, 4, Some 3, Some 1); (1, 13, 8, Some 4, Some 2)] /\
+     map (fun x => e_oid (snd x)) (filter (fun x => discard MVoice (e_kind (snd x))) out) = [1] /\
+     option_map (map nrow_of) (merged_rows 4 out) = Some [(0, 4, 60, 1, 1); (4, 4, 67, 3, 1); (8, 4, 69, 4, 2)]) /\
+  (exists out, merge_parts_arg MAuto (AScore [TGroup [TPart px_p0; TPart px_p1]]) = RMerged 4 out /\
+     gen_view out = [(0, 2, 0, Some 1, Some 1); (0, 3, 0, Some 2, Some 2); (0, 4, 4, Some 2, Some 2);
+                     (1, 12, 4, Some 9, Some 3); (1, 13, 8, Some 10, Some 4)]) /\
+  merge_parts_arg MStaff (AOne (TGroup [TPart px_p0; TPart px_p1])) = merge_parts_arg MStaff (ASeq [TPart px_p0; TPart px_p1]) /\
+  merge_parts_arg MVoice (ASeq [TPart px_p0; TPart px_p2]) = RRaise /\
+  merge_parts_arg MAuto (ASeq [TPart px_p0; TPart px_p2]) = RRaise /\
+  (exists out, merge_parts_arg MStaff (ASeq [TPart px_p0; TPart px_p2]) = RMerged 12 out) /\
+  all_voiced [px_p0; px_p2] = false /\ all_voiced [px_p0; px_p1] = true /\
+  (exists out1 out2, merge_parts MStaff [TPart px_p0; TPart px_p1] = RMerged 4 out1 /\
+     merge_parts MStaff [TPart (map snd out1, 4); TPart px_p2] = RMerged 12 out2 /\
+     map (fun x => (Z.of_nat (fst x), e_oid (snd x), e_start (snd x), e_end (snd x))) out2 =
+       [(0, 1, 0, Some 48); (0, 2, 0, Some 12); (0, 3, 0, Some 12); (0, 4, 12, Some 24);
+        (0, 12, 12, Some 24); (0, 13, 24, Some 36); (1, 21, 0, Some 12)]) /\
+  offs_at [px_p0; px_p1; px_p2] 1 = mkOffs 2 2 2 /\ offs_at [px_p0; px_p1; px_p2] 2 = mkOffs 4 4 4 /\
+  load_as_part [px_p0; px_p1] = merge_parts MVoice [TPart px_p0; TPart px_p1] /\ load_as_part [px_p1] = RSingle px_p1.
+Proof. exact ext_examples. Qed.
+Print Assumptions extension_examples.
